@@ -92,14 +92,24 @@ impl MultiPeerBackend for SubSocketBackend {
             .map(|x| SubSocketBackend::create_subs_message(x, SubBackendMsgType::SUBSCRIBE))
             .collect();
 
+        let mut writable = true;
         for message in subs_msgs {
-            send_queue.send(Message::Message(message)).await.unwrap();
+            if let Err(e) = send_queue.send(Message::Message(message)).await {
+                // The connection broke while replaying the subscriptions (the peer went
+                // away right after the handshake). Nothing can be sent to it any more,
+                // but what it sent before leaving is still delivered below.
+                log::debug!("Failed to send subscriptions to new peer: {:?}", e);
+                writable = false;
+                break;
+            }
         }
 
-        self.peers
-            .upsert_async(peer_id.clone(), Peer { send_queue })
-            .await;
-        self.round_robin.push(peer_id.clone());
+        if writable {
+            self.peers
+                .upsert_async(peer_id.clone(), Peer { send_queue })
+                .await;
+            self.round_robin.push(peer_id.clone());
+        }
         match &self.fair_queue_inner {
             None => {}
             Some(inner) => {
